@@ -76,10 +76,10 @@ class C16(Plugin):
 
         recs, d, tag, (st, pa, am), rows, col, target, header, mode = case[:9]
         early = case[10] if len(case) > 10 else len(recs)
-        kw = dict(strict=bool(st), passthrough=bool(pa))
+        kw = qprops.flags(strict=bool(st), passthrough=bool(pa))
         if tag < 2:
-            kw["ambiguous"] = bool(am)
-        c = curies.Converter(qprops.mk_records(recs[:early]), delimiter=d)
+            kw.update(qprops.flags(ambiguous=bool(am)))
+        c = curies.Converter(qprops.mk_records(recs[:early]), **qprops.flags(delimiter=d))
         if early < len(recs):
             self.warm_up(c, tag, kw, rows, col, header)
             for r in qprops.mk_records(recs[early:]):
@@ -100,7 +100,7 @@ class C16(Plugin):
             df = pd.DataFrame(rows, columns=list(range(ncols))) if rows else pd.DataFrame({j: pd.Series([], dtype=object) for j in range(ncols)})
             f = getattr(c, "pd_" + FN[tag])
             try:
-                f(df, column=col, target_column=None if target < 0 else target, **kw)
+                f(df, column=col, **qprops.flags(target_column=None if target < 0 else target), **kw)
             except Exception as e:
                 return case, [code_of(e)]
             out = []
